@@ -56,6 +56,16 @@ def make_system(rng, kind, nrb, nel, nrf, mform, wh=(0.05, 2.5), h=0.01, zetas=N
         M[ix] = T.T @ M[ix] @ T
         B[ix] = T.T @ B[ix] @ T
         K[ix] = T.T @ K[ix] @ T
+        if mform == "matns":
+            # the equations of the elastic block combined by a well-conditioned L: same solution for forces L f, and m, b, k are no
+            # longer symmetric (the solvers take general matrices; inv(m) and inv(m).T are then different things)
+            for _ in range(50):
+                L = np.eye(nel) + 0.3 * rng.standard_normal((nel, nel))
+                if np.linalg.cond(L) <= 30:
+                    break
+            M[ix] = L @ M[ix]
+            B[ix] = L @ B[ix]
+            K[ix] = L @ K[ix]
         if nrf > 1:
             for _ in range(50):
                 Tr = np.eye(nrf) + 0.2 * rng.standard_normal((nrf, nrf))
